@@ -14,6 +14,9 @@
           the 'pending' test agrees with the stored values; architecture guards
   C16.R4  accepted definitions are stored faithfully (whole list, in order, under the single pending layer) and read back unchanged
 
+A negative verdict needs positive evidence: when the guard / key / value it is read from contains a call the executor does not model,
+or consults the stored definitions in a way that is not recognised, the obligation is undecided (exit 2), not violated.
+
 All anchors are public API names (`LayeredArchitecture.layer/containing_modules/have_modules_with_names_matching/__getitem__/__str__`,
 `LayerRule.based_on/layers_that/are_named` and the methods the abstract language classes declare, `Rule.modules_that`,
 `ModuleNameFilter`, `ModuleNameRegexFilter`, `ImproperlyConfigured`).  The public methods are *interpreted* by the symbolic executor
@@ -64,10 +67,24 @@ def K(fi: FuncInfo, role: str) -> str:
     return f"{fi.relpath}::{fi.qualname}::{role}"
 
 
-def verdict(res: Result, r: Run, rule: str, key: str, ok: bool, detail: str, where: str = "", kind: str = "structural", nontrivial: bool = True) -> None:
+def unmodelled(terms) -> str | None:
+    """The first call inside the given terms / path conditions whose meaning the executor does not know (a library function or a
+    callable value it could not follow): what is concluded from such a term is not positive evidence."""
+    for x in subterms(tuple(terms)):
+        if x[0] == "call" and not isinstance(x[1], str) and not (is_term(x[1]) and x[1][0] in ("global", "builtin") and x[1][1].rsplit(".", 1)[-1] in ("ImproperlyConfigured",)):
+            return show(x)[:90]
+        if x[0] == "unknown":
+            return show(x)[:90]
+    return None
+
+
+def verdict(res: Result, r: Run, rule: str, key: str, ok: bool, detail: str, where: str = "", kind: str = "structural", nontrivial: bool = True, terms=()) -> None:
     """A negative verdict needs the whole method to have been followed: with repo calls / statements the executor could not
-    follow, the construct is undecided instead."""
+    follow, or with an un-modelled call inside the terms the verdict was read from, the construct is undecided instead."""
     blind = [f"call of {e.data['targets'][0].split('::')[-1]} not followed" for e in r.of("opaque")] + list(r.notes)
+    um = unmodelled(terms) if not ok else None
+    if um is not None:
+        blind = [f"`{um}` is a call whose meaning is not modelled"] + blind
     if not ok and blind:
         res.undecide(rule, key, f"{detail} - but the analysis of {r.fi.qualname} is incomplete: {blind[0]}", where)
     else:
@@ -224,6 +241,21 @@ class Builder:
                 inner = inner[2][0]
             return self.pending_part(inner)
         return False
+
+    def picked_from_all_layers(self, key: Term) -> bool:
+        """key is one element (`[i]`, `next(iter(..))`, `min` / `max`, unpacked, popped) of the collection of *all* layer names."""
+        inner = None
+        if key[0] == "index" and key[2][0] == "const":
+            inner = key[1]
+        elif key[0] == "unpack":
+            inner = key[1]
+        elif key[0] == "mcall" and key[2] in ("pop", "popitem"):
+            inner = key[1]
+        elif key[0] == "call" and key[1] in ("next", "min", "max") and key[2]:
+            inner = key[2][0]
+            if inner[0] == "call" and inner[1] in ("iter", "reversed") and inner[2]:
+                inner = inner[2][0]
+        return inner is not None and self.layer_names(inner)
 
     # -- attributes of a name filter that return the name it was built from (`identifier`, `name`)
     def find_name_attrs(self) -> None:
@@ -769,7 +801,7 @@ def check_rejections(res: Result, r: Run, enc: Enc, accept, what: str, also=None
     silent = [pc for pc, _v, _h in r.returns if not implies(enc.pc(pc), accept) or (also is not None and not also(pc))]
     other = [e for e in r.of("raise") if e.data["cls"] != CONFIG_ERROR and not e.in_loop and satisfiable(f_and([enc.pc(e.pc), f_not(accept)]))]
     if silent:
-        verdict(res, r, "C16.R3", key, False, f"{m.name} can return normally although {what} (path: `{show_pc(silent[0])[:140]}`): the ill-formed call is not rejected", f"{m.relpath}:{m.node.lineno}", kind="dominance")
+        verdict(res, r, "C16.R3", key, False, f"{m.name} can return normally although {what} (path: `{show_pc(silent[0])[:140]}`): the ill-formed call is not rejected", f"{m.relpath}:{m.node.lineno}", kind="dominance", terms=silent[0])
     elif other:
         verdict(res, r, "C16.R3", key, False, f"an ill-formed call raises `{other[0].data['cls']}` instead of a configuration error", other[0].where, kind="dominance")
     else:
@@ -804,10 +836,13 @@ def check_layer(b: Builder, res: Result) -> None:
             d1 = f"a new layer can be opened while another layer still has no modules: the guard `{show_pc(e.pc)[:140]}` does not consult the stored definitions (a layer counts as pending while its stored module sequence is empty)"
         else:
             d1 = f"a new layer can be opened while another layer still has no modules (guard: `{show_pc(e.pc)[:140]}`)"
-        if flag is None:
-            verdict(res, r, "C16.R3", K(m, "[no pending layer]"), ok1, d1, e.where, kind="dominance")
+        consults = [t for t, _pol in facts(e.pc) if mentions(t, b.store) and t != ("cmp", "In", name, b.store)] if no_pending is None else []
+        if flag is None and consults:
+            res.undecide("C16.R3", K(m, "[no pending layer]"), f"layer() is guarded by `{show(consults[0])[:140]}`, which consults the stored definitions in a way that is not recognised as the scan for layers without modules", e.where)
+        elif flag is None:
+            verdict(res, r, "C16.R3", K(m, "[no pending layer]"), ok1, d1, e.where, kind="dominance", terms=e.pc)
         ok2 = implies(pcf, f_not(in_store))
-        verdict(res, r, "C16.R3", K(m, "[unique name]"), ok2, "a layer name can be defined once" if ok2 else f"a layer name can be defined twice: the second definition replaces the first (guard: `{show_pc(e.pc)[:140]}`)", e.where, kind="dominance")
+        verdict(res, r, "C16.R3", K(m, "[unique name]"), ok2, "a layer name can be defined once" if ok2 else f"a layer name can be defined twice: the second definition replaces the first (guard: `{show_pc(e.pc)[:140]}`)", e.where, kind="dominance", terms=e.pc)
         v = e.data["value"]
         ok3 = v[0] in ("list", "tuple", "set") and not v[1]
         verdict(res, r, "C16.R3", K(m, "[opens empty]"), ok3, "the new layer starts without modules" if ok3 else f"the new layer is opened with `{show(v)[:60]}` instead of an empty definition", e.where, nontrivial=False)
@@ -836,13 +871,18 @@ def check_modules_method(b: Builder, res: Result, mname: str, union_param: bool)
             continue
         one = enc.len_atom(pend[0], 1) if pend else None
         ok = one is not None and implies(pcf, one)
-        verdict(res, r, 
+        consults = [t for t, _pol in facts(e.pc) if mentions(t, b.store) and not mentions(t, p)] if one is None else []
+        if consults:
+            res.undecide("C16.R3", K(m, "[exactly one pending layer]"), f"the store is guarded by `{show(consults[0])[:140]}`, which consults the stored definitions in a way that is not recognised as the scan for layers without modules", e.where)
+        else:
+          verdict(res, r, 
             "C16.R3",
             K(m, "[exactly one pending layer]"),
             ok,
             "modules are stored only when exactly one layer is pending" if ok else f"modules can be stored although not exactly one layer is waiting for its modules (guard: `{show_pc(e.pc)[:160]}`)" + ("" if pend else "; the guard does not consult the stored definitions"),
             e.where,
             kind="dominance",
+            terms=e.pc,
         )
         key = e.data["key"]
         ok = b.single_pending(key) and e.data["how"] in ("[]=", "update")  # (setdefault would keep the empty marker)
@@ -855,8 +895,12 @@ def check_modules_method(b: Builder, res: Result, mname: str, union_param: bool)
             else:
                 res.undecide("C16.R4", K(m, "[stored under the pending layer]"), f"the modules are stored under the cursor `{key[2]}`; that it names the one pending layer is not established without a guard on the stored definitions", e.where)
             ok = None
+        if ok is False and mentions(key, b.store) and e.data["how"] in ("[]=", "update") and not b.picked_from_all_layers(key):
+            # derived from the stored definitions, but neither a pick from the pending layers nor one from all layers
+            res.undecide("C16.R4", K(m, "[stored under the pending layer]"), f"the modules are stored under `{show(key)[:100]}`, which is not recognised as the layer that is waiting for its modules", e.where)
+            ok = None
         if ok is not None:
-            verdict(res, r, "C16.R4", K(m, "[stored under the pending layer]"), ok, "stored under the single pending layer" if ok else f"the modules are stored under `{show(key)[:80]}`, not under the one layer that is waiting for its modules", e.where, kind="structural")
+            verdict(res, r, "C16.R4", K(m, "[stored under the pending layer]"), ok, "stored under the single pending layer" if ok else f"the modules are stored under `{show(key)[:80]}`, not under the one layer that is waiting for its modules", e.where, kind="structural", terms=(key,))
         v = e.data["value"]
         if union_param:
             check_dup_guard(b, res, r, m, e, p, enc)
@@ -865,7 +909,7 @@ def check_modules_method(b: Builder, res: Result, mname: str, union_param: bool)
             cls = v[1][0][1].rsplit(".", 1)[-1] if v[0] in ("list", "tuple") and len(v[1]) == 1 and v[1][0][0] == "new" else None
             args = [x for x in (v[1][0][2] + tuple(val for _k, val in v[1][0][3]))] if cls else []
             ok = cls == "ModuleNameRegexFilter" and args == [p]
-            verdict(res, r, "C16.R4", K(m, "[regex filter stored]"), ok, "exactly one regex filter built from the supplied pattern is stored" if ok else f"`{show(v)[:80]}` is not the single regex filter of the supplied pattern", e.where, kind="structural")
+            verdict(res, r, "C16.R4", K(m, "[regex filter stored]"), ok, "exactly one regex filter built from the supplied pattern is stored" if ok else f"`{show(v)[:80]}` is not the single regex filter of the supplied pattern", e.where, kind="structural", terms=(v,))
         if one is not None and e is evs[-1]:
             if union_param:
                 def dup_free(pc: tuple) -> bool:
@@ -904,7 +948,7 @@ def check_dup_guard(b: Builder, res: Result, r: Run, m: FuncInfo, e: Event, p: T
         t = [t for t, _pol in facts(e.pc) if mentions(t, b.store) and mentions(t, p)][0]
         res.undecide("C16.R3", key, f"the store is guarded by `{show(t)[:140]}`, which relates the supplied modules to the stored definitions in a way that is not recognised as a duplicate check", e.where)
     else:
-        verdict(res, r, "C16.R3", key, False, f"no duplicate-module guard dominates the store (it is reached under `{show_pc(e.pc)[:160]}`)", e.where, kind="dominance")
+        verdict(res, r, "C16.R3", key, False, f"no duplicate-module guard dominates the store (it is reached under `{show_pc(e.pc)[:160]}`)", e.where, kind="dominance", terms=e.pc)
 
 
 def classify_dup(b: Builder, t: Term, pol: bool, p: Term, enc: Enc, pcf) -> tuple[str, str] | None:
@@ -1174,10 +1218,17 @@ def check_layer_rule(repo: Repo, sx: SymExec, res: Result) -> None:
     if len({e.data["attr"] for e in sets}) != 1:
         raise AnalysisError(f"{m.fq}: the attribute that receives the architecture was not found")
     arch = ("attr", SELF, sets[0].data["attr"])
+    # truth value of the architecture attribute: an object of a class without __bool__ / __len__ is always truthy, so `if self._a:`
+    # is `if self._a is not None:`; once the class (or a subclass) defines one of them an architecture can be falsy
+    la = public_class(repo, "LayeredArchitecture")
+    sized = [f"{c.name}.{n}" for c in [*repo.mro(la), *repo.subclasses(la)] for n in ("__bool__", "__len__") if n in c.methods]
+    falsy_note = f"; {sized[0]} makes an architecture without layers falsy, so a truth-value test of `{show(arch)}` is not a test for None" if sized else ""
+    enc = Enc(objects=set() if sized else {arch})
+    F.arch_objects = enc.objects
     arch_none = enc.truth(("cmp", "Is", arch, NONE_T))
     raised = f_or([enc.pc(e.pc) for e in config_raises(bo)])
     ok = equivalent(raised, f_not(arch_none)) and all(implies(enc.pc(e.pc), arch_none) for e in sets)
-    verdict(res, bo, "C16.R3", K(m, "architecture set once"), ok, "a second based_on raises a configuration error and leaves the architecture alone" if ok else f"based_on can replace the architecture of a rule (configuration error raised iff `{_show_f(raised)}`)", f"{m.relpath}:{m.node.lineno}", kind="decision-table")
+    verdict(res, bo, "C16.R3", K(m, "architecture set once"), ok, "a second based_on raises a configuration error and leaves the architecture alone" if ok else f"based_on can replace the architecture of a rule (configuration error raised iff `{_show_f(raised)}`){falsy_note}", f"{m.relpath}:{m.node.lineno}", kind="decision-table")
     # ---- layers_that: architecture first; the attribute that receives the module rule
     lt = F.run("layers_that")
     m = lt.fi
@@ -1187,7 +1238,7 @@ def check_layer_rule(repo: Repo, sx: SymExec, res: Result) -> None:
     rule = ("attr", SELF, rsets[0].data["attr"])
     raised = f_or([enc.pc(e.pc) for e in config_raises(lt)])
     ok = equivalent(raised, arch_none) and all(implies(enc.pc(e.pc), f_not(arch_none)) for e in rsets)
-    verdict(res, lt, "C16.R3", K(m, "architecture first"), ok, "layers_that requires an architecture" if ok else f"layers_that no longer requires an architecture (configuration error raised iff `{_show_f(raised)}`)", f"{m.relpath}:{m.node.lineno}", kind="decision-table")
+    verdict(res, lt, "C16.R3", K(m, "architecture first"), ok, "layers_that requires an architecture" if ok else f"layers_that no longer requires an architecture (configuration error raised iff `{_show_f(raised)}`){falsy_note}", f"{m.relpath}:{m.node.lineno}", kind="decision-table")
     # ---- the side flag of Rule: the attribute Rule.modules_that() sets to True
     mt = sx.run(public_method(repo, rule_cls, "modules_that"))
     flags = {e.data["attr"] for e in mt.of("setattr") if e.data["obj"] == SELF and e.data["value"] == ("const", True)}
@@ -1308,13 +1359,16 @@ def check_are_named(repo: Repo, F: RuleFacts, res: Result, arch: Term, rule: Ter
     r = F.run("are_named")
     m = r.fi
     p = ("param", m.param_names[1])
-    enc = Enc(None, {p})
+    enc = Enc(None, {p}, getattr(F, "arch_objects", set()))
     side = ("attr", rule, flag)
     S = enc.truth(side)
     L = enc.truth(("isinstance", p, ("list",)))
     none = enc.truth(("cmp", "Is", rule, NONE_T))
     arch_none = enc.truth(("cmp", "Is", arch, NONE_T))
-    started = f_and([f_not(none), f_not(arch_none)])
+    # once layers_that() has run the side flag is True or False, never None (obligations `side flag: ..` of check_side_flag: True after
+    # layers_that, untouched by the behaviour words, a falsy constant other than None after the access words, unchanged by are_named):
+    # configuration errors the wrapped rule keeps for "neither subject nor object announced" are unreachable from are_named
+    started = f_and([f_not(none), f_not(arch_none), f_not(enc.truth(("cmp", "Is", side, NONE_T)))])
     # effects on the wrapped rule: writes / mutating calls on objects reachable from it
     effects = [e for e in r.events if (e.kind == "setattr" and (mentions(e.data["obj"], rule) or (e.data["obj"] == SELF and ("attr", SELF, e.data["attr"]) == rule))) or (e.kind == "call" and e.data["method"] in MUTATORS and e.data["recv"] is not None and mentions(e.data["recv"], rule))]
     subj: list[Term] = []
